@@ -208,6 +208,11 @@ impl<'a> FullnameSerializer<'a> {
         }
     }
 
+    // the prefixes in scope that are bound to this namespace
+    pub(crate) fn prefixes_for_namespace(&self, namespace_id: NamespaceId) -> Vec<PrefixId> {
+        self.top().prefixes_by_namespace(namespace_id).collect()
+    }
+
     pub(crate) fn is_namespace_known(&self, namespace_id: NamespaceId) -> bool {
         self.top()
             .all_namespaces
